@@ -397,6 +397,7 @@ func (vc *VC) applyContract(fr *Frame, st *State, con *Contract, callee *ssa.Fun
 			post.names["result"] = sv
 		}
 	}
+	post.pol = 1
 	for _, e := range con.Ensures {
 		t := vc.evalSpecBool(post, e)
 		vc.assume(st, t)
